@@ -5,7 +5,7 @@ Core only.
 -/
 import AutomataVerif.Proofs.RxRepeat
 
-namespace AV
+namespace AV.Rx
 
 set_option linter.unusedSectionVars false
 
@@ -29,23 +29,7 @@ theorem mem_ainsert {k : κ} {v : β} {d : List (κ × β)} {x : κ × β} (h : 
         · exact Or.inl h
         · exact Or.inr (List.mem_cons_of_mem _ h)
 
-theorem alookup_of_mem_nodup {k : κ} {v : β} {d : List (κ × β)} (hd : (akeys d).Nodup)
-    (h : (k, v) ∈ d) : alookup k d = some v := by
-  induction d with
-  | nil => simp at h
-  | cons kv t ih =>
-    obtain ⟨k0, v0⟩ := kv
-    simp only [akeys, List.map_cons, List.nodup_cons] at hd
-    rw [alookup_cons]
-    rcases List.mem_cons.mp h with h | h
-    · cases h; simp
-    · have : k0 ≠ k := by
-        intro e; subst e
-        exact hd.1 (List.mem_map.mpr ⟨(k0, v), h, rfl⟩)
-      simp only [this, if_false]
-      exact ih hd.2 h
-
-end AV
+end AV.Rx
 
 namespace AV.Rx
 
